@@ -20,7 +20,7 @@ ID = "C17"
 RULE = (
     "Hypothesis-generated NewRecordBatch values: 1-8 records; first offset anywhere in int64, other offsets = first + "
     "int32 delta in any order; whole-millisecond timestamps anywhere in [epoch, 9999-12-31] in any order, in several fixed UTC "
-    "offsets and named DST zones (shared tzinfo objects; 1 batch in 12 lies in the repeated hour at the end of daylight saving time, first record fold=0, the others fold=1 with the same or an earlier wall-clock time); key/value null/empty/small/one >=16 KiB; 0-3 headers (1 record in 40: 63-130) with null/empty/non-empty key and value; record and "
+    "offsets and named DST zones (shared tzinfo objects; 1 batch in 12 lies in the repeated hour at the end of daylight saving time, first record fold=0, the others fold=1 with the same or an earlier wall-clock time); key/value null/empty/small/one >=16 KiB (1 batch in 8 stretched so that the checksummed section is exactly 4096 .. 196608 bytes); 0-3 headers (1 record in 40: 63-130) with null/empty/non-empty key and value; record and "
     "batch attributes, producer id/epoch, base sequence, partition leader epoch over their full ranges incl. limits. "
     "Oracle: kv.refbatch.decode_batch (independent strict v2 decoder with own varints and pure-Python CRC-32C) must "
     "parse the output completely (magic 2, batch_length == len-12, CRC over exactly bytes[21:], minimal varints, record "
@@ -120,6 +120,33 @@ def build(case):
     return NewRecordBatch(producer_id=case["producer_id"], producer_epoch=case["producer_epoch"],
                           partition_leader_epoch=case["partition_leader_epoch"], base_sequence=case["base_sequence"],
                           records=tuple(recs), attributes=case["attributes"])
+
+
+def aligned(case: dict, target: int) -> dict:
+    """The case with the last record's value stretched so that the checksummed section (attributes .. end of the batch) is
+    exactly `target` bytes - block-wise I/O and checksumming code is most fragile at exact multiples of its block size.
+    The library's writer is used for SIZING only."""
+    from kio.records.writers import write_new_batch
+
+    case = {**case, "records": [dict(r) for r in case["records"]]}
+    last = case["records"][-1]
+    for _ in range(6):
+        buf = io.BytesIO()
+        try:
+            write_new_batch(buf, build(case))
+        except Exception:
+            return case
+        section = len(buf.getvalue()) - 21
+        if section == target:
+            return case
+        cur = last["value"] or b""
+        if section > target:
+            if len(cur) < section - target:
+                return case  # cannot shrink that far
+            last["value"] = cur[: len(cur) - (section - target)]
+        else:
+            last["value"] = cur + b"\xa5" * (target - section)
+    return case
 
 
 def check(case) -> list[tuple[str, str]]:
@@ -252,6 +279,10 @@ def _worker(task):
     @settings(max_examples=n, database=None, deadline=None, phases=[Phase.generate], suppress_health_check=list(HealthCheck))
     @given(batch_cases())
     def test(case):
+        if (len(json.dumps(_brief_obj(case))) + len(case["records"])) % 8 == 0:
+            # one case in eight is stretched to an exact power-of-two size of the checksummed section
+            case = aligned(case, (4096, 8192, 16384, 32768, 65536, 131072, 196608)[len(case["records"]) % 7])
+            rep.labels["aligned_section"] += 1
         rep.evaluations += 1
         rep.labels[f"records_{min(len(case['records']), 4)}{'+' if len(case['records']) > 4 else ''}"] += 1
         if any((r["key"] and len(r["key"]) >= 16384) or (r["value"] and len(r["value"]) >= 16384) for r in case["records"]):
